@@ -74,6 +74,8 @@ def strategy(draw, tier="quick"):
     na = draw(st.sampled_from([3, 8, 9, 10, 12]))
     case = {"fmt": fmt, "nf": nf, "na": na, "cell": _ck(fmt, draw(st.sampled_from([None, "ortho", "tric"]))),
             "seed": draw(st.integers(0, 2))}
+    if fmt == "trr" and draw(st.booleans()):
+        case["trr_vf"] = draw(st.sampled_from(["v", "f", "vf"]))       # velocity / force blocks as GROMACS writes them
     if draw(st.integers(0, 2)) == 0:
         case["atoms"] = sorted(set(draw(st.lists(st.integers(0, na - 1), min_size=1, max_size=4))))
     long_ = fmt not in ("arc", "dtr") and draw(st.integers(0, 14)) == 0
@@ -186,7 +188,7 @@ def run_case(case):
         na_file = None
     else:
         c02._trim_cache()
-        fn, tr, _full = c02._file(fmt, case["nf"], case["na"], case["cell"], case["seed"])
+        fn, tr, _full = c02._file(fmt, case["nf"], case["na"], case["cell"], case["seed"], trr_vf=case.get("trr_vf"))
     atoms = case.get("atoms")
     with warnings.catch_warnings():
         warnings.simplefilter("ignore")
